@@ -69,9 +69,17 @@ Definition split_at_large_gaps (items : list re) : re * list (gap * re) :=
   let '(g, chunks, chain) := split_loop items (mkGap 0 None false) [] [] in
   match chunks with
   | [] =>
-      (* `if chunks.is_empty() { return (chain.remove(0).hir, chain) }`:
-         the pending gap g is not used *)
-      head_tail chain
+      (* `if chunks.is_empty()`: the pattern ends with a large gap.  The gap is
+         appended to the last piece (chain.pop(); concat [last.hir, jump];
+         chain.push) -- or, in the code before the repair, forgotten.  Which
+         of the two the source does is read from it on every run
+         (PatConsts.trailing_gap_kept). *)
+      if trailing_gap_kept then
+        match rev chain with
+        | (lg, lh) :: rc => head_tail (rev rc ++ [(lg, rcat [lh; jump_of g])])
+        | [] => (REps, [])        (* chain.pop().unwrap() would panic; only for an empty Concat *)
+        end
+      else head_tail chain
   | _ =>
       let hir := rcat chunks in
       if is_nil chain || long_enough hir then head_tail (chain ++ [(g, hir)])
@@ -85,12 +93,3 @@ Definition split_at_large_gaps (items : list re) : re * list (gap * re) :=
 (* what the chain means: the pieces with their gaps in between *)
 Definition join_chain (c : re * list (gap * re)) : re :=
   rcat (fst c :: flat_map (fun gp => [jump_of (fst gp); snd gp]) (snd c)).
-
-(* the pattern does not end with a jump over the threshold that follows a
-   non-empty piece (hex patterns never end with a jump; regexps can: /abc.{5,300}/s) *)
-Fixpoint ends_with_big_gap (items : list re) : bool :=
-  match items with
-  | [] => false
-  | [RRep (RCls CAny) mn mx _] => big_gap mn mx
-  | _ :: t => ends_with_big_gap t
-  end.
